@@ -589,17 +589,20 @@ def c09_groups(tier, tag='C09'):
         inst = {'k': K, 'l': L}
         gs.append(Group('%s.tGswExternMulToTLwe.k=%d.l=%d' % (tag, K, L), 'c09_extprod.c', 'h_tGswExternMulToTLwe', extract=[(TG, 'tGswExternMulToTLwe')],
                         defines=dict(d, H_EXTMUL=None), unwind=U, cbmc=['--memory-leak-check'], instance=inst))
+        gs.append(Group('%s.tGswExternProduct.k=%d.l=%d' % (tag, K, L), 'c09_extprod.c', 'h_tGswExternMulToTLwe', extract=[(TG, 'tGswExternProduct')],
+                        defines=dict(d, H_EXTMUL=None, EXT_PRODUCT=None), unwind=U, cbmc=['--memory-leak-check'], instance=inst))
         gs.append(Group('%s.tGswFFTExternMulToTLwe.k=%d.l=%d' % (tag, K, L), 'c09_extprod.c', 'h_tGswFFTExternMulToTLwe', extract=[(TGF, 'tGswFFTExternMulToTLwe')],
                         defines=dict(d, H_FFTEXTMUL=None), unwind=U, cbmc=['--memory-leak-check'], instance=inst))
-        gs.append(Group('%s.tGswAddH.k=%d.l=%d' % (tag, K, L), 'c09_extprod.c', 'h_gadget_rows', extract=[(TG, 'tGswAddH')], defines=dict(d, H_ROWS=None), unwind=U, instance=inst))
+        gs.append(Group('%s.tGswAddH.k=%d.l=%d' % (tag, K, L), 'c09_extprod.c', 'h_gadget_rows', extract=[(TG, 'tGswAddH')], defines=dict(d, H_ROWS=None), unwind=U, instance=inst, replay=('gadget', 'tGswAddH')))
         for M in ['0', '1', '2', '3']:
             gs.append(Group('%s.tGswAddMuIntH.k=%d.l=%d.m=%s' % (tag, K, L, M), 'c09_extprod.c', 'h_gadget_rows', extract=[(TG, 'tGswAddMuIntH')],
-                            defines=dict(d, H_ROWS=None, ROWS_INT=None, VERIF_MCONST=M), unwind=U, instance=dict(inst, message=M)))
+                            defines=dict(d, H_ROWS=None, ROWS_INT=None, VERIF_MCONST=M), unwind=U, instance=dict(inst, message=M), replay=('gadget', 'tGswAddMuIntH')))
         rows2 = '#define ROWS2_COMMA(M) %s\n' % ', '.join('M(%d)' % q for q in range((K + 1) * L))
         gs.append(Group('%s.tGswAddMuH.k=%d.l=%d' % (tag, K, L), 'c09_extprod.c', 'h_tGswAddMuH', extract=[(TG, 'tGswAddMuH')], loops=True, backend=ADDMU_BACKEND,
-                        defines=dict(d, H_ADDMUH=None), gen={'rows2.inc': rows2}, timeout=1200, instance=inst))
+                        defines=dict(d, H_ADDMUH=None, VERIF_BGBIT={1: 8, 2: 10, 3: 7, 4: 8}[L]), gen={'rows2.inc': rows2}, timeout=1200, instance=dict(inst, Bgbit={1: 8, 2: 10, 3: 7, 4: 8}[L]), replay=('gadget', 'tGswAddMuH')))
         gs.append(Group('%s.rowwise.k=%d.l=%d' % (tag, K, L), 'c09_extprod.c', 'h_tgsw_rowwise',
                         extract=[(TGF, 'tGswToFFTConvert'), (TG, 'tGswClear'), (TG, 'tGswMulByXaiMinusOne')], defines=dict(d, H_CONVERT=None), unwind=U, instance=inst))
+    gs.append(Group(tag + '.tGswNoiselessTrivial', 'c09_extprod.c', 'h_tGswNoiselessTrivial', extract=[(TG, 'tGswNoiselessTrivial')], defines={'H_TRIVIAL': None}))
     for (L, B) in ([(3, 7), (2, 10), (4, 8)] if tier == 'quick' else [(l, b) for (l, b) in valid_layouts() if l <= 8]):
         for M in ['1', '3', '(-1)']:
             gs.append(Group('%s.lemma.truncation.l=%d.Bgbit=%d.m=%s' % (tag, L, B, M), 'c09_extprod.c', 'h_lemma_truncation',
@@ -912,7 +915,7 @@ PROPS = {
         'assumptions': STD_ASSUME + [
             'the polynomial multiply-accumulate (tLweAddMulRTo / tLweFFTAddMulRTo / IntPolynomial_ifft / TorusPolynomial_fft) is a monitor: its numerical content (FFT, C10) is assumed; so "phase = m*phase(c) + bounded error" is NOT decided, only the exact structure that makes it so',
             'k and l enumerated; message constants m in {0,1,2,3} for tGswAddMuIntH and {1,3,-1} for the truncation identity (symbolic 32x32 multipliers undecided)',
-            'tGswAddMuH (polynomial message) and tGswExternProduct are not under contract',
+            'tGswAddMuH (polynomial message): proved for the gadget weights h[i] = 2^(32-(i+1)Bgbit) of one layout per l (the weights the constructor computes, C12), all N, all message polynomials; symbolic weights are not decided (32-bit multiplier congruence)',
             '"the FFT-domain key is a faithful image": only that every row is transformed once into its own slot',
         ],
         'trusted': [],
